@@ -38,17 +38,17 @@ Proof. intros H. unfold sub1. destruct (0 <? cnt w)%N eqn:L; simpl. lia. apply N
 
 Ltac id_split j :=
   repeat match goal with
-  | H : context [Nat.eqb ?i j] |- _ => destruct (Nat.eqb i j) eqn:?
-  | |- context [Nat.eqb ?i j] => destruct (Nat.eqb i j) eqn:?
+  | H : context [if Nat.eqb ?i j then _ else _] |- _ => destruct (Nat.eqb i j) eqn:?
+  | |- context [if Nat.eqb ?i j then _ else _] => destruct (Nat.eqb i j) eqn:?
   end.
 
 Ltac cnt_case Ht Htd :=
-  use_specs; proj_simpl; try discriminate;
-  let j := fresh "j" in let wj := fresh "wj" in let Hj := fresh "Hj" in
-  intros j wj Hj;
-  try match goal with |- context [hsum j (upd _ _ ?th')] =>
-         pose proof (hsum_upd j _ _ _ th' Ht) as E; pose proof (hsum_ge j _ _ _ Ht) as G; rewrite Htd in E, G; simpl in E, G
+  use_specs; intros ? ? ?; proj_simpl; try discriminate;
+  match goal with Hj : nth_error _ ?j = Some _ |- context [hsum ?j ?ts] =>
+  try match ts with upd _ _ ?th' =>
+         pose proof (hsum_upd j _ _ _ th' Ht) as E
        end;
+  pose proof (hsum_ge j _ _ _ Ht) as G; rewrite Htd in *; simpl in *;
   repeat match goal with H : e_id _ = _ |- _ => rewrite H in * end; simpl in *;
   rewrite ?hl_app, ?hl_cmds in *; simpl in *;
   try rewrite nth_error_upd in Hj;
@@ -58,12 +58,163 @@ Ltac cnt_case Ht Htd :=
   repeat match goal with
     | H1 : nth_error ?l ?n = Some ?a, H2 : match nth_error ?l ?n with _ => _ end = Some _ |- _ => rewrite H1 in H2
     end;
-  repeat match goal with H : Some _ = Some _ |- _ => injection H as H; subst end.
+  repeat match goal with H : Some _ = Some _ |- _ => injection H as H; subst end
+  end.
+
+Lemma hold_cw_after_load j th i w : hold j (cw_after_load th i w) = 0.
+Proof. unfold cw_after_load. destruct (2 <=? cnt w)%N; auto. destruct ((cnt w =? 1)%N && negb (oidx_is (proc th) i)); auto. Qed.
+
+Ltac cnt_fin I :=
+  rewrite ?hold_cw_after_load in *;
+  repeat match goal with Hx : nth_error (ids _) _ = Some ?w |- _ =>
+     lazymatch goal with | _ : cnt w = N.of_nat _ |- _ => fail | _ => destruct (I _ _ Hx) end end;
+  try match goal with Hb : (cnt ?w =? 7)%N = false, Hl : (cnt ?w <= 7)%N |- _ => destruct (add1_cnt w Hl Hb) end;
+  try (rewrite sub1_cnt by lia);
+  simpl cnt; split; lia.
 
 Lemma step_cnt c t c' : crashed c' = false -> cnt_inv c -> step c t = Some c' -> cnt_inv c'.
 Proof.
   intros NC I H. open_step H th it rest Ht Htd.
   more_cases H; cnt_case Ht Htd.
+  all: solve [cnt_fin I].
+Qed.
 
+(* ------------------------------------------------------------------ consequences *)
+Lemma hsum_init j progs : hsum j (map init_thread progs) = 0.
+Proof. induction progs; simpl; auto. rewrite hl_cmds, IHprogs. reflexivity. Qed.
 
+Lemma init_cnt progs nids bds : cnt_inv (init progs nids bds).
+Proof.
+  intros j w H. unfold init in *; simpl in *. rewrite hsum_init.
+  apply nth_error_In in H. apply repeat_spec in H. subst. simpl. split; lia.
+Qed.
+
+Lemma cshape_hl j rest cu pr : cshape rest cu pr -> hl j rest <= 1.
+Proof.
+  intros H; destruct H; rewrite ?hl_app, ?hl_cmds; simpl; rewrite ?hl_cmds.
+  lia. destruct (oidx_is (e_id e) j); lia.
+Qed.
+Lemma hold_le1 j it : hold j it <= 1.
+Proof. destruct it; simpl; auto; try (destruct (Nat.eqb i j); lia); destruct (oidx_is (e_id e) j); lia. Qed.
+Lemma shape_hl j td cu pr : shape td cu pr -> hl j td <= 2.
+Proof.
+  intros H; destruct H; simpl; rewrite ?hl_cmds;
+  try (match goal with H : cshape _ _ _ |- _ => apply (cshape_hl j) in H end);
+  try (pose proof (hold_le1 j m));
+  repeat match goal with |- context [if ?b then _ else _] => destruct b end; lia.
+Qed.
+Lemma hsum_bound j ts : Forall wf_thread ts -> hsum j ts <= 2 * length ts.
+Proof.
+  induction 1; simpl. lia. unfold wf_thread in H. apply (shape_hl j) in H. lia.
+Qed.
+
+Lemma step_length c t c' : step c t = Some c' -> length (threads c') = length (threads c).
+Proof.
+  intros H. unfold step in H. more_cases H. all: use_specs. all: proj_simpl; rewrite ?upd_length; auto.
+Qed.
+
+(* no count overflow (internal_error "lower id overflow") with at most 3 threads *)
+Lemma step_no_crash c t c' :
+  length (threads c) <= 3 -> crashed c = false -> cnt_inv c -> Forall wf_thread (threads c) ->
+  step c t = Some c' -> crashed c' = false.
+Proof.
+  intros L NC I W H. unfold step in H.
+  more_cases H; use_specs; proj_simpl; auto;
+  match goal with Hx : nth_error (ids _) ?j = Some ?w, Hb : (cnt ?w =? 7)%N = true |- _ =>
+         destruct (I _ _ Hx) as (_ & Hc); apply N.eqb_eq in Hb; pose proof (hsum_bound j _ W); lia end.
+Qed.
+
+Lemma reachable_all progs nids bds c :
+  length progs <= 3 -> reachable (init progs nids bds) c ->
+  crashed c = false /\ cnt_inv c /\ Forall wf_thread (threads c) /\ length (threads c) <= 3.
+Proof.
+  intros L R. induction R.
+  - split; [reflexivity|]. split; [apply init_cnt|]. split.
+    { unfold init; simpl. apply Forall_forall. intros th H. apply in_map_iff in H. destruct H as (p & <- & _).
+      unfold wf_thread, init_thread; simpl. apply sh_c. constructor. }
+    unfold init; simpl. rewrite map_length. auto.
+  - destruct IHR as (NC & I & W & Ln).
+    assert (crashed c' = false) by (eapply step_no_crash; eauto).
+    split; auto. split; [eapply step_cnt; eauto|]. split; [eapply step_wf; eauto|].
+    erewrite step_length; eauto.
+Qed.
+
+(* word equality decides count equality *)
+Lemma word_eq_cnt a b : word_eqb a b = true -> (cnt a <= 7)%N -> (cnt b <= 7)%N -> cnt a = cnt b.
+Proof.
+  unfold word_eqb, word_N. intros H La Lb. apply N.eqb_eq in H.
+  assert (forall x d c, (c <= 7)%N -> (d = 0 \/ d = 8)%N -> ((x * 16 + d + c) mod 8 = c)%N) as M.
+  { intros x d c Lc [-> | ->].
+    - replace (x * 16 + 0 + c)%N with (c + (2 * x) * 8)%N by lia. rewrite N.mod_add by lia. apply N.mod_small. lia.
+    - replace (x * 16 + 8 + c)%N with (c + (2 * x + 1) * 8)%N by lia. rewrite N.mod_add by lia. apply N.mod_small. lia. }
+  rewrite <- (M (gen a mod gmod)%N (if dl a then 8 else 0)%N (cnt a)) by (auto; destruct (dl a); auto).
+  rewrite <- (M (gen b mod gmod)%N (if dl b then 8 else 0)%N (cnt b)) by (auto; destruct (dl b); auto).
+  rewrite H. reflexivity.
+Qed.
+
+Lemma hsum_ge2 j ts t1 t2 a b : t1 <> t2 -> nth_error ts t1 = Some a -> nth_error ts t2 = Some b ->
+  hl j (todo a) + hl j (todo b) <= hsum j ts.
+Proof.
+  revert t1 t2; induction ts; intros t1 t2 N H1 H2; destruct t1, t2; simpl in *; try discriminate; try congruence.
+  - injection H1 as ->. pose proof (hsum_ge j _ _ _ H2). lia.
+  - injection H2 as ->. pose proof (hsum_ge j _ _ _ H1). lia.
+  - assert (t1 <> t2) by congruence. specialize (IHts _ _ H H1 H2). lia.
+Qed.
+
+(* a thread whose m_callback_processing_id is i holds one count of i *)
+Lemma proc_holds i rest cu : cshape rest cu (Some i) -> hl i rest = 1.
+Proof.
+  intros H. remember (Some i) as pr eqn:E. destruct H; try discriminate.
+  rewrite hl_app, hl_cmds. simpl. rewrite hl_cmds. rewrite E. simpl. rewrite Nat.eqb_refl. reflexivity.
+Qed.
+
+(* CAS success in cancel_callback_and_wait(id) => count = 0, or 1 and it is the caller's own dispatch;
+   and then NO OTHER thread is posting under the id, between a dispatch's fetch_add and fetch_sub
+   on the id, or inside a callback of the id *)
+Lemma cas_success_quiescent progs nids bds c t th i old rest w :
+  length progs <= 3 -> reachable (init progs nids bds) c ->
+  nth_error (threads c) t = Some th -> todo th = ICwCas i old :: rest ->
+  nth_error (ids c) i = Some w -> word_eqb w old = true ->
+  (cnt w = 0%N \/ (cnt w = 1%N /\ proc th = Some i)) /\
+  forall t2 th2, t2 <> t -> nth_error (threads c) t2 = Some th2 -> hl i (todo th2) = 0.
+Proof.
+  intros L R Ht Htd Hw He. destruct (reachable_all _ _ _ _ L R) as (NC & I & W & _).
+  destruct (I _ _ Hw) as (Lw & Cw).
+  pose proof (Forall_nth_error _ _ _ _ W Ht) as Sh. unfold wf_thread in Sh. rewrite Htd in Sh.
+  apply shape_cons in Sh. split_all; try discriminate. simpl in H0.
+  assert (Eo : cnt w = cnt old) by (apply word_eq_cnt; auto; destruct H0 as [-> | (-> & _)]; lia).
+  assert (Hp : cnt w = 1%N -> oidx_is (proc th) i = true -> proc th = Some i).
+  { intros _ Hx. destruct (proc th); simpl in Hx; try discriminate. apply Nat.eqb_eq in Hx. congruence. }
+  split.
+  - destruct H0 as [E0 | (E1 & Ep)]; [left | right]; try split; try congruence. apply Hp; congruence.
+  - intros t2 th2 Nt Ht2. pose proof (hsum_ge2 i _ _ _ _ _ Nt Ht2 Ht) as G. rewrite Htd in G. simpl in G.
+    destruct H0 as [E0 | (E1 & Ep)].
+    + lia.
+    + assert (proc th = Some i) by (apply Hp; congruence). rewrite H0 in H1. apply proc_holds in H1. lia.
+Qed.
+
+(* what "hl i (todo th2) = 0" excludes *)
+Lemma not_holding_means i th2 : wf_thread th2 -> hl i (todo th2) = 0 ->
+  proc th2 <> Some i /\
+  (forall e, In (IRun e) (todo th2) \/ In (IRet e) (todo th2) -> e_id e <> Some i) /\
+  (forall tgt k u x b, ~ In (IPostLock tgt k i u x b) (todo th2)) /\
+  (forall tgt u si, ~ In (IPostSub tgt i u si) (todo th2)) /\
+  (forall u, ~ In (IEndCb i u) (todo th2) /\ ~ In (ISkipSub i u) (todo th2)).
+Proof.
+  intros W Z.
+  assert (forall it, In it (todo th2) -> hold i it = 0) as A.
+  { revert Z. generalize (todo th2). induction l; simpl; intros Z it []; subst; try lia. apply IHl; auto; lia. }
+  repeat split.
+  - intros P. unfold wf_thread in W. rewrite P in W. inversion W; subst;
+    try match goal with H : cshape _ _ (Some i) |- _ => apply proc_holds in H end.
+    + lia.
+    + rewrite <- H in Z. simpl in Z. lia.
+    + rewrite <- H in Z. simpl in Z. lia.
+    + rewrite <- H in Z. simpl in Z. lia.
+    + rewrite <- H in Z. simpl in Z. match goal with E : e_id _ = Some i |- _ => rewrite E in Z end. simpl in Z. rewrite Nat.eqb_refl in Z. lia.
+  - intros e [H | H] E; apply A in H; simpl in H; rewrite E in H; simpl in H; rewrite Nat.eqb_refl in H; lia.
+  - intros tgt k u x b H. apply A in H. simpl in H. rewrite Nat.eqb_refl in H. lia.
+  - intros tgt u si H. apply A in H. simpl in H. rewrite Nat.eqb_refl in H. lia.
+  - intros H. apply A in H. simpl in H. rewrite Nat.eqb_refl in H. lia.
+  - intros H. apply A in H. simpl in H. rewrite Nat.eqb_refl in H. lia.
 Qed.
